@@ -3,6 +3,7 @@
 pub mod dtls;
 pub mod ice;
 pub mod pc;
+pub mod pcrtp;
 pub mod pump;
 pub mod rtp;
 pub mod sctp;
@@ -48,6 +49,7 @@ pub enum Ep {
     IceTcp(ice::Tcp),
     Rtp(rtp::Ep),
     Udptl(udptl::Ep),
+    PcRtp(pcrtp::Ep),
 }
 
 impl Ep {
@@ -68,6 +70,8 @@ impl Ep {
             // first concretisation: clear RTP; second: SRTP installed
             "rtp_transport" => Ok(Ep::Rtp(rtp::Ep::build(variant % 2 == 1).await?)),
             "udptl" => Ok(Ep::Udptl(udptl::Ep::build().await?)),
+            // second concretisation: RTP latching with a probation window enabled
+            "pc_rtp" => Ok(Ep::PcRtp(pcrtp::Ep::build(variant % 2 == 1).await?)),
             _ => Err(format!("unsupported entry {entry}")),
         }
     }
@@ -82,6 +86,7 @@ impl Ep {
             Ep::IceTcp(e) => e.progress(to).await,
             Ep::Rtp(e) => e.progress(to).await,
             Ep::Udptl(_) => Ok(()),
+            Ep::PcRtp(e) => e.progress(to).await,
         }
     }
     /// EXT (beyond the listed property): after the measured step, does the endpoint still serve its genuine peer?
@@ -90,7 +95,7 @@ impl Ep {
             Ep::Turn(_) => None,
             Ep::Dtls(e) => Some(e.still_alive().await),
             Ep::Sctp(e) => Some(e.still_alive().await),
-            Ep::Pc(_) | Ep::IceUdp(_) | Ep::IceTcp(_) | Ep::Rtp(_) | Ep::Udptl(_) => None,
+            Ep::Pc(_) | Ep::IceUdp(_) | Ep::IceTcp(_) | Ep::Rtp(_) | Ep::Udptl(_) | Ep::PcRtp(_) => None,
         }
     }
     async fn genuine(&mut self, tpl: &str) -> Option<Vec<u8>> {
@@ -103,6 +108,7 @@ impl Ep {
             Ep::IceTcp(e) => e.genuine(tpl),
             Ep::Rtp(e) => e.genuine(tpl),
             Ep::Udptl(e) => e.genuine().await,
+            Ep::PcRtp(e) => e.genuine(tpl),
         }
     }
     async fn feed(&mut self, input: &[u8]) -> Feed {
@@ -115,6 +121,7 @@ impl Ep {
             Ep::IceTcp(e) => e.feed(input).await,
             Ep::Rtp(e) => e.feed(input).await,
             Ep::Udptl(e) => e.feed(input).await,
+            Ep::PcRtp(e) => e.feed(input).await,
         }
     }
     /// Entry-specific repair of a mutated input (e.g. the SCTP checksum), given the mutated field.
@@ -135,6 +142,7 @@ impl Ep {
             Ep::IceTcp(e) => e.observe(),
             Ep::Rtp(e) => e.observe(),
             Ep::Udptl(e) => e.observe(),
+            Ep::PcRtp(e) => e.observe(),
         }
     }
 }
@@ -222,6 +230,10 @@ async fn one_run(ctx: &Ctx, entry: &str, pre: &[Value], ci: usize, tpl: &str, cl
     Ok(Some(v))
 }
 
+fn has_modes(entry: &str) -> bool {
+    matches!(entry, "sctp" | "ice_tcp" | "rtp_transport" | "dtls_client" | "dtls_server" | "pc_rtp")
+}
+
 pub async fn run_case(ctx: &Ctx, st: &mut State, ci: usize, c: &Value) -> Value {
     let entry = c["entry"].as_str().unwrap();
     let tpl = c["tpl"].as_str().unwrap();
@@ -247,6 +259,10 @@ pub async fn run_case(ctx: &Ctx, st: &mut State, ci: usize, c: &Value) -> Value 
     let mut runs = 0;
     let nv = ctx.nvariants.min(4);
     for v in 0..nv {
+        // entries without a second role / mode have nothing new to show in the odd concretisations
+        if v % 2 == 1 && !has_modes(entry) {
+            continue;
+        }
         match one_run(ctx, entry, &pre, ci, tpl, Some((idx, mutn)), v).await {
             Ok(Some(mut r)) => {
                 if r["res"] == "hang" && mutn.starts_with("dup_fill") {
